@@ -44,6 +44,13 @@ FUNCTIONS = [
     ('isotp/protocol.py', 'PDU', 'craft_flow_control_data'),
     ('isotp/protocol.py', 'TransportLayerLogic', '_get_nearest_can_fd_size'),
     ('isotp/protocol.py', 'TransportLayerLogic', '_get_dlc'),
+    ('isotp/tpsock/opts.py', 'GeneralOpts', 'write'),
+    ('isotp/tpsock/opts.py', 'FlowControlOpts', 'write'),
+    ('isotp/tpsock/opts.py', 'LinkLayerOpts', 'write'),
+    ('isotp/tpsock/__init__.py', 'socket', 'set_opts'),
+    ('isotp/tpsock/__init__.py', 'socket', 'set_fc_opts'),
+    ('isotp/tpsock/__init__.py', 'socket', 'set_ll_opts'),
+    ('isotp/tpsock/__init__.py', 'socket', 'bind'),
     ('isotp/tools.py', 'Timer', 'is_timed_out'),
     ('isotp/tools.py', 'Timer', 'is_stopped'),
     ('isotp/tools.py', 'Timer', 'stop'),
@@ -58,6 +65,9 @@ CONST_CLASSES = [
     ('isotp/address.py', 'TargetAddressType'),
     ('isotp/protocol.py', 'PDU.Type'),
     ('isotp/protocol.py', 'PDU.FlowStatus'),
+    ('isotp/tpsock/__init__.py', 'flags'),
+    ('isotp/tpsock/__init__.py', 'LinkLayerProtocol'),
+    ('isotp/tpsock/opts.py', ''),           # module-level integer constants (option numbers)
 ]
 
 
@@ -161,11 +171,15 @@ def expr(n):
             raise Unsupported('full slice')
         return '(.index %s %s)' % (expr(n.value), expr(s))
     if isinstance(n, ast.Call):
-        if n.keywords:
-            raise Unsupported('keyword arguments')
         f = dotted(n.func)
         if f is None:
             raise Unsupported('call of a computed value')
+        if n.keywords:
+            # keyword arguments: passed after the positional ones, their names appended to the callee's name (`f(a, k=b)` -> `f#k` [a, b]), so
+            # that the `Meths` of the theorem sees which parameter each value goes to
+            if any(k.arg is None for k in n.keywords):
+                raise Unsupported('**kwargs')
+            return '(.call %s %s)' % (lstr(f + ''.join('#' + k.arg for k in n.keywords)), args(list(n.args) + [k.value for k in n.keywords]))
         if f == 'isinstance':
             if len(n.args) != 2:
                 raise Unsupported('isinstance arity')
@@ -174,6 +188,8 @@ def expr(n):
                 return '(.call %s %s)' % (lstr('isinstance_' + t.id), args(n.args[:1]))
             if isinstance(t, ast.Tuple) and sorted(dotted(e) or '?' for e in t.elts) == ['float', 'int']:
                 return '(.call "isinstance_int_float" %s)' % args(n.args[:1])
+            if isinstance(t, ast.Tuple) and all(dotted(e) is not None for e in t.elts):
+                return '(.call %s %s)' % (lstr('isinstance_' + '_'.join(dotted(e).split('.')[-1] for e in t.elts)), args(n.args[:1]))
             d = dotted(t)
             if d is not None:
                 # a class of the package: not a builtin of the interpreter, so the call is resolved by the `Meths` of the theorem
@@ -307,8 +323,14 @@ def translate(repo):
     for f, path in CONST_CLASSES:
         if f not in trees:
             trees[f] = ast.parse(open(os.path.join(repo, f), encoding='utf-8', newline=None).read())
-        c = find_class(trees[f], path)
+        c = find_class(trees[f], path) if path else trees[f]
         if c is None:
+            continue
+        if not path:
+            for m in c.body:
+                if isinstance(m, ast.Assign) and len(m.targets) == 1 and isinstance(m.targets[0], ast.Name) and isinstance(m.value, ast.Constant) \
+                        and isinstance(m.value.value, int) and not isinstance(m.value.value, bool):
+                    consts.append(('', m.targets[0].id, 'pint (%d)' % m.value.value, m.value.value))
             continue
         is_enum = any((dotted(b) or '').split('.')[-1] == 'Enum' for b in c.bases)
         short = path.split('.')[-1]
@@ -320,6 +342,8 @@ def translate(repo):
                 else:
                     consts.append((path, m.targets[0].id, 'pint (%d)' % m.value.value, m.value.value))
     def keys(path, member):
+        if not path:
+            return [member]
         ks = ['%s.%s' % (path, member)]
         if '.' in path:
             ks.append('self.%s.%s' % (path.split('.', 1)[1], member))      # a nested class is reached through `self` inside its outer class
@@ -330,7 +354,7 @@ def translate(repo):
     out.append(']')
     out.append('/-- the integer VALUE of each of them (`AddressingMode.X.value`, ...) -/')
     out.append('def constValues : List (String × Int) := [')
-    out.append(',\n'.join('  (%s, %d)' % (lstr('%s.%s' % (p, m)), iv) for p, m, _, iv in consts))
+    out.append(',\n'.join('  (%s, %d)' % (lstr(('%s.%s' % (p, m)) if p else m), iv) for p, m, _, iv in consts))
     out.append(']')
     out.append('')
     out.append('end Isotp.Py.Src')
